@@ -112,7 +112,7 @@ struct OpDef {
 
 
 // ---------- isolated execution: run a batch of transitions in a forked child; a crash costs one re-fork, not the search ----------
-struct Outcome { bool ok = true; bool crashed = false; std::string oracle, detail, strides; int alloc_a = 0, alloc_b = 0; };
+struct Outcome { bool ok = true; bool crashed = false; std::string oracle, detail, strides; int alloc_a = 0, alloc_b = 0; long nfault = 0; };
 
 inline std::string enc(std::string s) { for(auto& c : s) { if(c == '\t' || c == '\n') { c = ' '; } } return s; }
 
@@ -133,7 +133,7 @@ std::vector<Outcome> isolated(int n, Run&& run) {
 			for(int i = next; i < n; ++i) {
 				std::fprintf(f, "B\t%d\n", i); std::fflush(f);
 				Outcome o = run(i);
-				std::fprintf(f, "R\t%d\t%d\t%s\t%s\t%s\t%d\t%d\n", i, o.ok ? 1 : 0, enc(o.oracle).c_str(), enc(o.detail).c_str(), enc(o.strides).c_str(), o.alloc_a, o.alloc_b); std::fflush(f);
+				std::fprintf(f, "R\t%d\t%d\t%s\t%s\t%s\t%d\t%d\t%ld\n", i, o.ok ? 1 : 0, enc(o.oracle).c_str(), enc(o.detail).c_str(), enc(o.strides).c_str(), o.alloc_a, o.alloc_b, o.nfault); std::fflush(f);
 			}
 			std::fclose(f); _exit(0);
 		}
@@ -148,7 +148,7 @@ std::vector<Outcome> isolated(int n, Run&& run) {
 			std::string line = buf.substr(pos, e - pos); pos = e + 1;
 			std::vector<std::string> f; { std::size_t a = 0; for(;;) { auto t = line.find('\t', a); if(t == std::string::npos) { f.push_back(line.substr(a)); break; } f.push_back(line.substr(a, t - a)); a = t + 1; } }
 			if(f[0] == "B" && f.size() >= 2) { begun = std::atoi(f[1].c_str()); }
-			if(f[0] == "R" && f.size() >= 6) { int i = std::atoi(f[1].c_str()); auto& o = out[static_cast<std::size_t>(i)]; o.ok = f[2] == "1"; o.oracle = f[3]; o.detail = f[4]; o.strides = f[5]; if(f.size() >= 8) { o.alloc_a = std::atoi(f[6].c_str()); o.alloc_b = std::atoi(f[7].c_str()); } last_done = i; }
+			if(f[0] == "R" && f.size() >= 6) { int i = std::atoi(f[1].c_str()); auto& o = out[static_cast<std::size_t>(i)]; o.ok = f[2] == "1"; o.oracle = f[3]; o.detail = f[4]; o.strides = f[5]; if(f.size() >= 8) { o.alloc_a = std::atoi(f[6].c_str()); o.alloc_b = std::atoi(f[7].c_str()); } if(f.size() >= 9) { o.nfault = std::atol(f[8].c_str()); } last_done = i; }
 		}
 		if(WIFEXITED(st) && WEXITSTATUS(st) == 0 && last_done == n - 1) { close(err); break; }
 		// the child died while running item `begun`
